@@ -51,6 +51,15 @@ int nested_entry(int id, int arg) { return g_cb(id, arg + 1000000); }
 
 int call_cb_from_here(int id, int arg, int kind)
 {
+    if (kind >= 5) {
+        /* kind 5 / 6: the C caller brackets the callback with its own PyGILState_Ensure/Release, so
+           the callback is entered by a thread that already holds the GIL (like a C library that
+           also uses the CPython API) */
+        PyGILState_STATE st = PyGILState_Ensure();
+        int r = (kind == 6) ? xp_cb(id, arg) : g_cb(id, arg);
+        PyGILState_Release(st);
+        return r;
+    }
     if (kind == 1) return xp_cb(id, arg);
     return g_cb(id, arg);
 }
@@ -64,7 +73,7 @@ static void *ft_main(void *p)
         if (fts[id].cmd == CMD_BLOCK) { waiting[id] = 1; sem_wait(&exit_sem[id]); break; }
         if (fts[id].cmd == CMD_CALL) {
             for (i = 0; i < fts[id].n; i++) {
-                if (fts[id].kind >= 3) {            /* errno-carrying call (C22): kind 3 libffi, 4 extern "Python" */
+                if (fts[id].kind == 3 || fts[id].kind == 4) {   /* errno-carrying call (C22): kind 3 libffi, 4 extern "Python" */
                     errno = fts[id].arg;
                     fts[id].result = call_cb_from_here(id, fts[id].arg, fts[id].kind - 3);
                     fts[id].seen_after = errno;
